@@ -30,6 +30,17 @@ FAMILIES = {
     "blank-lines": lambda n: "SELECT a" + " \n" * (4 * n) + "FROM t",
     "long-word": lambda n: "SELECT " + "w" * (8 * n) + " FROM t",
     "long-number": lambda n: "SELECT " + "7" * (8 * n) + " FROM t",
+    # constructs nested in THEMSELVES (depth n/8, at most 40: CPython's frame limit): a parser that tries an alternative and parses the inner part again doubles per level
+    "nested-subquery-arith": lambda n: "SELECT " + "((SELECT " * min(n // 8, 40) + "1" + ") + 1)" * min(n // 8, 40),
+    "nested-subquery": lambda n: "SELECT " + "(SELECT " * min(n // 8, 40) + "1" + ")" * min(n // 8, 40),
+    "nested-paren-arith": lambda n: "SELECT " + "((" * min(n // 8, 40) + "1" + ") * 2 + 1)" * min(n // 8, 40),
+    "nested-function": lambda n: "SELECT " + "f(1, g(" * min(n // 8, 40) + "a" + "))" * min(n // 8, 40) + " FROM t",
+    "nested-case": lambda n: "SELECT " + "CASE WHEN a = 1 THEN (" * min(n // 8, 40) + "0" + ") ELSE 2 END" * min(n // 8, 40) + " FROM t",
+    "nested-in-subquery": lambda n: "SELECT a FROM t WHERE a IN " + "(SELECT b FROM u WHERE b IN " * min(n // 8, 30) + "(1, 2)" + ")" * min(n // 8, 30),
+    "nested-derived-table": lambda n: "SELECT a FROM " + "(SELECT a FROM " * min(n // 8, 40) + "t" + ") q" * min(n // 8, 40),
+    "nested-exists-not": lambda n: "SELECT a FROM t WHERE " + "NOT EXISTS (SELECT 1 FROM u WHERE " * min(n // 8, 30) + "1 = 1" + ")" * min(n // 8, 30),
+    "nested-union-paren": lambda n: "SELECT a FROM " + "(SELECT 1 AS a UNION ALL SELECT a FROM " * min(n // 8, 30) + "t" + ") q" * min(n // 8, 30),
+    "nested-window-cast": lambda n: "SELECT " + "CAST((SUM(" * min(n // 8, 40) + "a" + ") OVER (ORDER BY b)) AS SIGNED INTEGER)" * min(n // 8, 40) + " FROM t",
     "nesting": lambda n: "SELECT " + "(" * min(n, 40) + "1" + ")" * min(n, 40) + " + " + " + ".join("1" for _ in range(n)),
 }
 
@@ -95,8 +106,8 @@ def run(ctx):
     tsizes = [8 * base, 16 * base, 32 * base] if not quick else [4 * base, 8 * base, 16 * base]
     suspicious = []
     for name, mk in FAMILIES.items():
-        if name == "nesting":
-            continue
+        if name == "nesting" or name.startswith("nested-"):
+            continue        # depth-bounded families: judged on the step counters
         t = [micros(x) for x in E.run_impl(["TIME MYSQL %s 3" % E.enhex(mk(n)) for n in tsizes], jobs=1)]
         expo = math.log(max(t[-1], 1) / max(t[0], 1)) / math.log(tsizes[-1] / tsizes[0])
         ctx.cov.setdefault("growth_exponent", {})[name] = round(expo, 2)
